@@ -55,6 +55,11 @@ fn families() -> Vec<(&'static str, Vec<Vec<(&'static str, VariantType)>>)> {
         ("StringValue", vec![vec![("Value", T::String)], vec![("Tags", T::Tags)], vec![("Attributes", T::Attributes)]]),
         ("ZzUnknownClass", vec![vec![("A", T::Int32)], vec![("B", T::String)], vec![("C", T::Vector3)], vec![("D", T::SharedString)], vec![("E", T::NumberSequence)], vec![("F", T::Content)]]),
         ("SpawnLocation", vec![vec![("TeamColor", T::BrickColor)], vec![("Size", T::Vector3), ("size", T::Vector3)], vec![("Color", T::Color3), ("brickColor", T::BrickColor)]]),
+        // service classes: a file normally holds one copy of a service, but nothing forbids two, and the column rules are
+        // the same for them (defaults far from the type-neutral value: Brightness ~2, Gravity 196.2, TimeOfDay "14:00:00")
+        ("Lighting", vec![vec![("Brightness", T::Float32)], vec![("TimeOfDay", T::String)], vec![("Ambient", T::Color3)], vec![("GlobalShadows", T::Bool)]]),
+        ("Workspace", vec![vec![("Gravity", T::Float32)], vec![("FallenPartsDestroyHeight", T::Float32)], vec![("StreamingEnabled", T::Bool)]]),
+        ("SoundService", vec![vec![("DistanceFactor", T::Float32)], vec![("RolloffScale", T::Float32)], vec![("RespectFilteringEnabled", T::Bool)]]),
     ]
 }
 
